@@ -1,6 +1,8 @@
 package props
 
 import (
+	"os"
+	"sync"
 	"crypto/sha256"
 	"encoding/hex"
 	"fmt"
@@ -29,6 +31,35 @@ func h8(s string) string {
 	return hex.EncodeToString(h[:8])
 }
 
+func tailS(l []string, n int) []string {
+	if len(l) > n {
+		return l[len(l)-n:]
+	}
+	return l
+}
+
+func firstDiff(a, b string) string {
+	n := len(a)
+	if len(b) < n {
+		n = len(b)
+	}
+	i := 0
+	for i < n && a[i] == b[i] {
+		i++
+	}
+	lo, hiA, hiB := i-80, i+120, i+120
+	if lo < 0 {
+		lo = 0
+	}
+	if hiA > len(a) {
+		hiA = len(a)
+	}
+	if hiB > len(b) {
+		hiB = len(b)
+	}
+	return fmt.Sprintf("first difference at %d: %q vs %q", i, a[lo:hiA], b[lo:hiB])
+}
+
 func sigs(r *ExecResult) string {
 	s := []string{}
 	for _, v := range r.Viol {
@@ -49,7 +80,7 @@ func (j *ScenarioJob) Run(deadline time.Time) *runner.JobResult {
 	a := sc.RunOnce(vx.NewChooser(a0.Choices), true)
 	b := sc.RunOnce(vx.NewChooser(a.Choices), true)
 	if a0.Outcome != a.Outcome || sigs(a0) != sigs(a) {
-		res.HarnessErr = "setup snapshot self-test failed: running the setup and restoring its snapshot differ"
+		res.HarnessErr = "setup snapshot self-test failed: running the setup and restoring its snapshot differ: " + firstDiff(a0.Outcome, a.Outcome) + " | " + sigs(a0) + " vs " + sigs(a) + fmt.Sprintf(" | log lines %d vs %d; tails: %v ||| %v", len(a0.Log), len(a.Log), tailS(a0.Log, 6), tailS(a.Log, 6))
 		return res
 	}
 	if a.Outcome != b.Outcome || strings.Join(a.Labels, "\n") != strings.Join(b.Labels, "\n") || sigs(a) != sigs(b) || strings.Join(a.Log, "\n") != strings.Join(b.Log, "\n") {
@@ -59,10 +90,15 @@ func (j *ScenarioJob) Run(deadline time.Time) *runner.JobResult {
 
 	outcomes := map[string]bool{}
 	seenSig := map[string]bool{}
-	ex := &vx.Explorer{Bound: sc.Bound, Prune: !sc.NoPrune, Stop: func() bool { return !deadline.IsZero() && time.Now().After(deadline) }}
+	ex := &vx.Explorer{Bound: sc.Bound, Prune: !sc.NoPrune, Workers: sc.Par, Stop: func() bool { return !deadline.IsZero() && time.Now().After(deadline) }}
+	var mu sync.Mutex
 	ex.Explore(func(ch *vx.Chooser) bool {
-		runner.Trace(fmt.Sprintf("JOB %s PREFIX %v", sc.Name, ch.Prefix()))
+		if sc.Par <= 1 {
+			runner.Trace(fmt.Sprintf("JOB %s PREFIX %v", sc.Name, ch.Prefix()))
+		}
 		r := sc.RunOnce(ch, false)
+		mu.Lock()
+		defer mu.Unlock()
 		if j.OnExec != nil {
 			j.OnExec(r)
 		}
@@ -128,6 +164,9 @@ func ReplayScenario(scs []*Scenario, name string, choices []int) int {
 	for _, sc := range scs {
 		if sc.Name != name {
 			continue
+		}
+		if os.Getenv("VERIF_REPLAY_FROM_SNAPSHOT") != "" {
+			sc.RunOnce(vx.NewChooser(choices), false) // produces the setup snapshot
 		}
 		r := sc.RunOnce(vx.NewChooser(choices), true)
 		for _, l := range r.Log {
